@@ -234,6 +234,22 @@ theorem tls_never_unauthenticated (pt : Bool) (results : List (Option (List Str)
   simp only [authenticate, Bool.not_true, Bool.false_eq_true, if_false]
   exact firstAuth_ne_nil results
 
+/-- **trust_domain_not_compared** (a caveat, stated as a theorem so that it cannot be overlooked): the binding looks
+    at namespace and service account only. A credential of *any* trust domain whose namespace / service account
+    prove the claim is accepted, and the foreign trust domain is what ends up in `VerifiedIdentity`. Which trust
+    domains can present credentials at all is decided earlier, by the authenticators (certificate chain against the
+    mesh roots, JWT issuer) - an input here. -/
+theorem trust_domain_not_compared (cfgNs sa : Str) (id : Identity) (td' : Str)
+    (h2 : '/' ∉ id.ns) (h3 : '/' ∉ id.sa) (htd : '/' ∉ td') (hp : Proves cfgNs sa id) :
+    checkConnectionIdentity cfgNs sa [({ id with td := td' } : Identity).render] = some { id with td := td' } := by
+  have hparse := parseIdentity_render { id with td := td' } htd h2 h3
+  unfold checkConnectionIdentity
+  rw [hparse]
+  simp only
+  have n1 : ¬ (cfgNs ≠ [] ∧ id.ns ≠ cfgNs) := fun hc => hc.2 (hp.1 hc.1)
+  have n2 : ¬ (sa ≠ [] ∧ id.sa ≠ sa) := fun hc => hc.2 (hp.2 hc.1)
+  simp [n1, n2]
+
 /-- `GetProxyConfigNamespace`: metadata wins. -/
 theorem configNamespace_meta (c : Claim) (h : c.metaNs ≠ []) : configNamespace c = c.metaNs := by
   simp [configNamespace, h]
@@ -280,5 +296,9 @@ example : connect true ex_node true "ns1".toList [] (some [ex_other]) = some ("n
 example : connect true ex_node true [] [] (some [ex_other]) = some ("ns1".toList, .denied) := by decide
 
 example : connect true ex_node true "ns1".toList [] none = some ("ns1".toList, .ok none) := by decide
+
+/-- A credential of another trust domain binds as `ns1` (see `trust_domain_not_compared`). -/
+example : connect true ex_node true "ns1".toList [] (some ["spiffe://other-td/ns/ns1/sa/x".toList]) =
+    some ("ns1".toList, .ok (some ⟨"other-td".toList, "ns1".toList, "x".toList⟩)) := by decide
 
 end IstioModel.C11
